@@ -17,9 +17,12 @@ LEVEL = "proof"
 LEVEL_TEXT = ("Lean 4 theorem key_eq_iff: for all pairs of target states, the model's key (hash of a length-framed, sorted byte "
               "stream) is equal iff the states agree on label, command, set of (input path, content), output definitions, "
               "dependency digests, fingerprint map and platform — assuming only that the hash function is injective on the two "
-              "streams involved; plus order-independence and location-freedom lemmas. The byte stream of the model is tied to the "
-              "code by comparing real SHA-256 keys byte-for-byte on every run, and a model-independent pair oracle searches the real "
-              "code for collisions / spurious differences (boundary shifts, separators inside elements, permutations).")
+              "streams involved; plus order-independence and location-freedom lemmas, and the same for the digests that enter keys through "
+              "dependencies (output hash, no-cache output hash: nocache_outHash_inj, content digests). The byte stream of the model is tied to the "
+              "code by comparing real keys byte-for-byte on every run under both hash algorithms (the model carries its own SHA-256 and XXH3-128, "
+              "validated against the real hashers each run), and a model-independent pair oracle searches the real "
+              "code for collisions / spurious differences (boundary shifts, separators inside elements, permutations, weakened file frames, "
+              "block-permuted large files, workspace location, host environment).")
 LEVEL_NOTE = ("Trusted: Lean kernel; axioms propext/Classical.choice/Quot.sound; hash functions are parameters (collision resistance of "
               "xxh3-128/SHA-256 is not claimed); Lean SHA-256 and XXH3-128 implementations validated against crypto/sha256 and zeebo/xxh3 on every run; component "
               "lengths < 2^64; glob resolution and file reading (os.Open/Stat/io.Copy) outside the model; sampled correspondence.")
